@@ -180,6 +180,8 @@ class FST:
         output_word : iterable of any
             The translation of the input word
         """
+        # Any iterable is accepted, the word is sliced below
+        input_word = list(input_word)
         # (remaining in the input, generated so far, current_state)
         to_process = []
         seen_by_state = {state: [] for state in self.states}
